@@ -37,16 +37,23 @@ package config
 // ---- C17: per-route validation: group_by has no duplicates and does not mix '...' with labels; group_interval and
 // repeat_interval are non-zero when set.
 //@ func (*Route).UnmarshalYAML
-//@   props C17
-//@   nosafe
+//@   props C17 C06
 //@   requires r != nil && unmarshal != nil
+//@   after call dynamic:param:unmarshal assume !r.GroupByAll && r.GroupBy == nil
 //@   ensures [no-duplicate-group-by] result == nil ==> (forall i int, j int :: 0 <= i && i < j && j < len(r.GroupBy) ==> r.GroupBy[i] != r.GroupBy[j])
 //@   ensures [no-wildcard-mix] result == nil ==> !(len(r.GroupBy) > 0 && r.GroupByAll)
+//@   ensures [wildcard-recognised] result == nil ==> (r.GroupByAll == (exists i int :: 0 <= i && i < len(r.GroupByStr) && r.GroupByStr[i] == "..."))
+//@   ensures [labels-collected] result == nil ==> (forall i int :: 0 <= i && i < len(r.GroupByStr) && r.GroupByStr[i] != "..." ==> r.GroupByStr[i] in elems(r.GroupBy))
+//@   ensures [explicit-empty-group-by-kept] result == nil && r.GroupByStr != nil && len(r.GroupByStr) == 0 ==> r.GroupBy != nil
 //@   ensures [intervals-non-zero] result == nil ==> (r.GroupInterval != nil ==> deref(r.GroupInterval) != 0) && (r.RepeatInterval != nil ==> deref(r.RepeatInterval) != 0)
+//@   loop 3 invariant rangeindex < len(r.GroupByStr) && (r.GroupBy == nil || (fresh(r.GroupBy) && base(r.GroupBy) != base(r.GroupByStr)))
+//@   loop 3 invariant r.GroupByAll == (exists k int :: 0 <= k && k <= rangeindex && r.GroupByStr[k] == "...")
+//@   loop 3 invariant forall k int :: 0 <= k && k <= rangeindex && r.GroupByStr[k] != "..." ==> r.GroupByStr[k] in elems(r.GroupBy)
 //@   loop 4 invariant rangeindex < len(r.GroupBy) && fresh(groupBy)
 //@   loop 4 invariant forall i int, j int :: 0 <= i && i < j && j <= rangeindex ==> r.GroupBy[i] != r.GroupBy[j]
 //@   loop 4 invariant forall ln model.LabelName :: (ln in groupBy) == (exists k int :: 0 <= k && k <= rangeindex && r.GroupBy[k] == ln)
-//@   noeffect IsValidLabelName
+//@   loop 4 invariant (r.GroupByAll == (exists i int :: 0 <= i && i < len(r.GroupByStr) && r.GroupByStr[i] == "...")) && (forall i int :: 0 <= i && i < len(r.GroupByStr) && r.GroupByStr[i] != "..." ==> r.GroupByStr[i] in elems(r.GroupBy))
+//@   noeffect IsValidLabelName MatchString
 
 // ---- C17: the well-formedness a loaded configuration has. Config.UnmarshalYAML has a single successful exit, the
 // final call of checkTimeInterval; everything the statement promises about the routing tree and the interval names
